@@ -841,7 +841,38 @@ fn fold_constraint_set(
         },
         SetOperator::Except => {
             if set.base.per_visible() {
-                Ok(Some(set.base.clone()))
+                // An extension marker that follows the excluded set
+                // applies to the constraint as a whole, not to the exclusion
+                let marker_follows = matches!(
+                    &folded_operant,
+                    Some(
+                        SubtypeElements::SingleValue {
+                            extensible: true,
+                            ..
+                        } | SubtypeElements::ValueRange {
+                            extensible: true,
+                            ..
+                        }
+                    )
+                );
+                Ok(Some(match set.base.clone() {
+                    SubtypeElements::SingleValue { value, extensible } => {
+                        SubtypeElements::SingleValue {
+                            value,
+                            extensible: extensible || marker_follows,
+                        }
+                    }
+                    SubtypeElements::ValueRange {
+                        min,
+                        max,
+                        extensible,
+                    } => SubtypeElements::ValueRange {
+                        min,
+                        max,
+                        extensible: extensible || marker_follows,
+                    },
+                    base => base,
+                }))
             } else {
                 Ok(None)
             }
